@@ -285,7 +285,7 @@ def run(shard, ctx):
 
 def finalize(merged, tier):
     c = merged["counters"]
-    if merged["shards"] != 4:
+    if merged["shards"] not in (4, 8):  # 4 configurations, each also in an interpreter started with -O
         merged["inconclusive"].append("not all 4 configurations ran")
     for k in ("modules_imported", "commands_built", "device_string_cases", "facade_plain_ok"):
         if c.get(k, 0) == 0:
